@@ -79,6 +79,18 @@ let () =
             end
             else print_string (show show_rows (csv_load_stream k sep keys text) ^ "\n")
           end
+        | "csvh" when Array.length t = 5 ->
+          (* a request program per row (C03): <prog>/<prog>/..., each a field list *)
+          let sep = parse_sep t.(2) and text = parse_hexbytes t.(4) in
+          let progs = List.map parse_fields (split_on '/' t.(3)) in
+          if t.(1) = "mem" then
+            print_string (show show_rows (csv_load_hist sep progs text) ^ "\n")
+          else begin
+            let k = if t.(1) = "stream" then chunk_size
+                    else nat_of_int (int_of_string (String.sub t.(1) 6 (String.length t.(1) - 6))) in
+            if not (utf8_detected k text) then print_string "UNSUPPORTED\n"
+            else print_string (show show_rows (csv_load_stream_hist k sep progs text) ^ "\n")
+          end
         | "sepv" when Array.length t = 2 ->
           let a = if validate_separator (parse_sep t.(1)) then "OK" else "EXC:InvalidOptions" in
           Printf.printf "%s %s %s %s\n" a a a a
